@@ -132,30 +132,7 @@ def run(ctx) -> None:
     once = all(len(db.local_defs(m_).get(v, [])) == 1 for m_ in (smap, amap) for v, ds in db.local_defs(m_).items() if any(isinstance(d, ast.Assign) and "generate_map_inputs" in src(d.value) for d in ds))
     ok = len(idefs) == 2 and once and all("list(generate_map_inputs(" in src(d.value) for d in idefs)
     rep.add("C10.R3", "map:variations-materialised-once", ok, smap.loc(), "variations = list(generate_map_inputs(...)), bound once in each map" if ok else "the list of variations is rebound or not taken from generate_map_inputs")
-    for f in (smap, amap, coll):
-        for n in walk_local(f.node):
-            if isinstance(n, ast.Raise) and n.exc is not None and isinstance(n.exc, ast.Attribute) and n.exc.attr == "error":
-                lp = enclosing(n, (ast.For,))
-                fcfg = ctx.cfg(f)
-                rn = [x for x in fcfg.nodes if x.kind == "stmt" and x.ast is n]
-                atoms_failed, atoms_mode = set(), set()
-                for t in fcfg.nodes:
-                    if t.kind == "test" and t.ast is not None:
-                        for a in test_atoms(t.ast):
-                            if isinstance(a, ast.Compare) and len(a.ops) == 1 and isinstance(a.ops[0], (ast.Eq, ast.Is)):
-                                txt = src(a).replace('"', "'")
-                                if "FAILED" in txt and ".status" in txt:
-                                    atoms_failed.add(src(a))
-                                if "error_handling" in txt and "'raise'" in txt:
-                                    atoms_mode.add(src(a))
-
-                def dead_when_false(atoms) -> bool:
-                    return bool(atoms) and bool(rn) and not any(x in reachable(fcfg.entry, specialize({a: False for a in atoms}, fcfg)) for x in rn)
-
-                okf = lp is not None and dead_when_false(atoms_failed) and not any(isinstance(x, ast.Call) and dotted(x.func) in ("reversed", "sorted") for x in ast.walk(lp.iter))
-                if f is smap:
-                    okf = okf and dead_when_false(atoms_mode)
-                rep.add("C10.R3", f"{f.qname}:first-failure@{_k(f, n)}", okf, f"{f.module.rel}:{n.lineno}", "raises the first FAILED item's own error, scanning in input order" if okf else "the raised error is not the first failed item's in input order")
+    check_first_failure(ctx, "C10.R3")
 
     # ---- R7 ---------------------------------------------------------------------
     REBOUND = {"error_handling": "items always collect their error (the map applies the caller's mode itself)", "_parent_span_id": "items are parented to the map span", "input_values": "keyword inputs are merged into the variations", "values": "replaced by the item's variation", "graph": "positional"}
@@ -233,6 +210,40 @@ def run(ctx) -> None:
 def _k(f, n) -> int:
     rs = [x for x in walk_local(f.node) if isinstance(x, ast.Raise)]
     return rs.index(n)
+
+
+def check_first_failure(ctx, rule: str) -> None:
+    """In raise mode a map (and the per-output collector) raises the first FAILED item's own error, found by
+    scanning the results in input order — never the first to *complete* failing."""
+    db, rep = ctx.db, ctx.rep
+    coll = db.func("runners._shared.helpers.collect_as_lists")
+    smap = [m for m in template_methods(db, "map") if not m.is_async][0]
+    amap = [m for m in template_methods(db, "map") if m.is_async][0]
+    for f in (smap, amap, coll):
+        for n in walk_local(f.node):
+            if isinstance(n, ast.Raise) and n.exc is not None and isinstance(n.exc, ast.Attribute) and n.exc.attr == "error":
+                lp = enclosing(n, (ast.For,))
+                fcfg = ctx.cfg(f)
+                rn = [x for x in fcfg.nodes if x.kind == "stmt" and x.ast is n]
+                atoms_failed, atoms_mode = set(), set()
+                for t in fcfg.nodes:
+                    if t.kind == "test" and t.ast is not None:
+                        for a in test_atoms(t.ast):
+                            if isinstance(a, ast.Compare) and len(a.ops) == 1 and isinstance(a.ops[0], (ast.Eq, ast.Is)):
+                                txt = src(a).replace('"', "'")
+                                if "FAILED" in txt and ".status" in txt:
+                                    atoms_failed.add(src(a))
+                                if "error_handling" in txt and "'raise'" in txt:
+                                    atoms_mode.add(src(a))
+
+                def dead_when_false(atoms) -> bool:
+                    return bool(atoms) and bool(rn) and not any(x in reachable(fcfg.entry, specialize({a: False for a in atoms}, fcfg)) for x in rn)
+
+                okf = lp is not None and dead_when_false(atoms_failed) and not any(isinstance(x, ast.Call) and dotted(x.func) in ("reversed", "sorted") for x in ast.walk(lp.iter))
+                if f is smap:
+                    okf = okf and dead_when_false(atoms_mode)
+                rep.add(rule, f"{f.qname}:first-failure@{_k(f, n)}", okf, f"{f.module.rel}:{n.lineno}", "raises the first FAILED item's own error, scanning in input order" if okf else "the raised error is not the first failed item's in input order")
+
 
 
 def check_async_map_order(ctx, rule: str) -> None:
